@@ -62,6 +62,11 @@ var querySites = map[string]bool{
 	"model2d.JoinedCollider.CircleCollision": true, "model2d.ColliderSolid.Contains": true,
 	"render3d.colorFuncObject.Cast": true, "render3d.ColliderObject.Cast": true, "render3d.JoinedObject.Cast": true,
 	"render3d.FilteredObject.Cast": true, "render3d.PhongMaterial.BSDF": true,
+	// enumerations of a mesh and the entry points of a renderer (iterate_private_list_eq_sequential,
+	// renderer_calls_private_config_eq_sequential)
+	"model3d.Mesh.IterateSorted": true, "model2d.Mesh.IterateSorted": true,
+	"render3d.RecursiveRayTracer.RayVariance": true, "render3d.BidirPathTracer.RayVariance": true,
+	"render3d.RecursiveRayTracer.Render": true, "render3d.BidirPathTracer.Render": true,
 }
 
 // Query closures that must still be found.
@@ -164,7 +169,15 @@ var queryMethodNames = map[string]bool{
 	"SampleLight": true, "TotalEmission": true, "SampleFocus": true, "FocusDensity": true,
 	"Find": true, "Neighbors": true, "VertexSlice": true, "IterateVertices": true, "Iterate": true,
 	"IterateSorted": true, "TriangleSlice": true, "SegmentSlice": true, "Dist": true,
+	// read-only use of one renderer: the entry points of RayCaster, RecursiveRayTracer,
+	// BidirPathTracer (see rendererEntryNames)
+	"Render": true, "RenderVariance": true, "RayVariance": true,
 }
+
+// The renderers' entry points are query methods only on the exported renderer types: the
+// unexported rayRenderer is a value every call creates for itself (r.rayRenderer()), so a write
+// to it is a write to state of the call.
+var rendererEntryNames = map[string]bool{"Render": true, "RenderVariance": true, "RayVariance": true}
 
 var syncMethodNames = map[string]bool{"Lock": true, "Unlock": true, "RLock": true, "RUnlock": true,
 	"Load": true, "Store": true, "Wait": true, "Done": true, "LoadOrStore": true, "CompareAndSwap": true}
@@ -350,7 +363,7 @@ func analysePackage(dir string) (*pkgInfo, error) {
 		} else {
 			info.pure[m.name] = true
 		}
-		if !queryMethodNames[m.name] {
+		if !queryMethodNames[m.name] || (rendererEntryNames[m.name] && !ast.IsExported(m.typ)) {
 			continue
 		}
 		info.queryAll = append(info.queryAll, m.typ+"."+m.name)
